@@ -3,7 +3,7 @@ from ..paths import describe, pretty_place
 from ..rules import calls_to, calls_where, order_ok, blocks_of, must_pass, self_field_of_call, op_sites, frame_op, closure_args
 from ..facts import callee_path
 
-TEXT = ("Structure of the signal flow, not its arithmetic: every scratch buffer lent to a child is accumulated into the parent and zero-filled before it is reused; each sound/effect/child track has exactly one process call site per owner, inside one loop (or iterator consumer) over the owning collection, and that pass lies on every path to a return (except the silent exit of a frozen track); Mixer processes sub-tracks, then send tracks, then the main track; Track applies gate, children, sounds, effects, spatialisation, fader, sends in this order; sends are fed from the post-fader buffer; all scratch buffers are sized from internal_buffer_size and children receive slices of at most that size. Gain values and effect outputs are not decided. Every effect- or send-taking method of the track builders stores what it was given. A track is not unloaded while a descendant track is alive (removal predicate rule). The queues of dependents are drained before the queues of what they refer to (sub-tracks before send tracks); every mixing loop adds a contribution once and applies a gain once; AudioManager::new uses one internal buffer size, the configured one; the removal flag a dropped handle raises is the one the audio side reads. The gain stage, the send stage and a send track's input stage lie on every path to a return of their mixing function (except the frozen exit); no volume in use is a cached copy of a parameter's value that can go stale. Every per-frame read of a volume is given the position of the frame inside the slice being processed (index / length of that slice). A pause / resume the track reads reaches its state machine in every state. A track built anywhere has its effects initialised with the device rate read at that moment, on every path of its creation site; track handles write their commands whatever the handle believes the track's state to be. Renderer::process renders every chunk of the device buffer: its chunk loop is left by exhaustion only and every turn reaches process_chunk. Each chunk is rendered with its own frame count (dt x the frames of that chunk, computed per chunk).")
+TEXT = ("Structure of the signal flow, not its arithmetic: every scratch buffer lent to a child is accumulated into the parent and zero-filled before it is reused; each sound/effect/child track has exactly one process call site per owner, inside one loop (or iterator consumer) over the owning collection, and that pass lies on every path to a return (except the silent exit of a frozen track); Mixer processes sub-tracks, then send tracks, then the main track; Track applies gate, children, sounds, effects, spatialisation, fader, sends in this order; sends are fed from the post-fader buffer; all scratch buffers are sized from internal_buffer_size and children receive slices of at most that size. Gain values and effect outputs are not decided. Every effect- or send-taking method of the track builders stores what it was given. A track is not unloaded while a descendant track is alive (removal predicate rule). The queues of dependents are drained before the queues of what they refer to (sub-tracks before send tracks); every mixing loop adds a contribution once and applies a gain once; AudioManager::new uses one internal buffer size, the configured one; the removal flag a dropped handle raises is the one the audio side reads. The gain stage, the send stage and a send track's input stage lie on every path to a return of their mixing function (except the frozen exit); no volume in use is a cached copy of a parameter's value that can go stale. Every per-frame read of a volume is given the position of the frame inside the slice being processed (index / length of that slice). A pause / resume the track reads reaches its state machine in every state. A track built anywhere has its effects initialised with the device rate read at that moment, on every path of its creation site; track handles write their commands whatever the handle believes the track's state to be. Renderer::process renders every chunk of the device buffer: its chunk loop is left by exhaustion only and every turn reaches process_chunk. Each chunk is rendered with its own frame count (dt x the frames of that chunk, computed per chunk). Builder / settings methods named after a field store their argument unconditionally, through conversions only; a track or route volume starts from the configured value and a linked one is polled from the first callback (a new parameter is stagnant exactly when its initial value is fixed).")
 TECHNIQUE = 'MIR CFG ordering / pairing / single-site rules'
 
 TRACK = 'track::sub::Track'
